@@ -62,6 +62,9 @@ def walk_local(node, include_self=True):
 def body_walk(fn):
     """All nodes of a function's own body (not nested defs' bodies, not its decorators/defaults)."""
     for st in fn.body if isinstance(fn.body, list) else [fn.body]:
+        if isinstance(st, NESTED):
+            yield st            # a nested definition is visible as a node; its body belongs to it, not to fn
+            continue
         yield from walk_local(st)
 
 
